@@ -256,6 +256,18 @@ impl Control for NewReno {
     fn process_ecn(&mut self, ack: &AckFrame, sent_time: &Instant, epoch: Epoch) {
         self.process_ecn(ack, sent_time, epoch);
     }
+
+    #[cfg(genmeta_gm_quic_verif)]
+    fn verif_state(&self) -> (usize, usize, usize, Option<Instant>, [u64; 3], usize) {
+        (
+            self.congestion_window,
+            self.ssthresh,
+            self.bytes_in_flight,
+            self.congestion_recovery_start_time,
+            self.ecn_ce_counters,
+            self.max_datagram_size(),
+        )
+    }
 }
 
 /*
